@@ -105,6 +105,7 @@ var flowRules = map[string]flowFn{
 	"int-parse-decimal": func(f *yyflow.Lang, sh map[string]*yyflow.Shape) *report.RuleResult { return f.IntParseDecimal() },
 	"empty-list-literal": func(f *yyflow.Lang, sh map[string]*yyflow.Shape) *report.RuleResult { return f.EmptyListLiteral() },
 	"fold-span":         func(f *yyflow.Lang, sh map[string]*yyflow.Shape) *report.RuleResult { return f.FoldSpan() },
+	"nil-deref":         func(f *yyflow.Lang, sh map[string]*yyflow.Shape) *report.RuleResult { return f.NilDeref() },
 	"assert-safe":       func(f *yyflow.Lang, sh map[string]*yyflow.Shape) *report.RuleResult { return f.AssertSafe(sh) },
 }
 
